@@ -205,6 +205,16 @@ def sign_case(env, case, st):
         st.fail("serialize/parse round trip fails", cd)
     elif L.whitelist_verify(L.ctx, sig2, on_arr, off_arr, k, F.W_obj) != 1:
         st.fail("re-parsed signature does not verify", cd)
+    # serialize into every declared length 0..needed+1 on an exactly sized heap buffer (short => 0, nothing written past it)
+    if k <= 8:
+        for room in range(0, len(ser) + 2):
+            ob_ = exact(b"\xee" * max(room, 1))
+            ln_ = c_size_t(room)
+            r_ = L.whitelist_signature_serialize(L.ctx, ob_, byref(ln_), sig)
+            st.calls += 1
+            if r_ != (1 if room >= len(ser) else 0) or (r_ == 1 and (ln_.value != len(ser) or bytes(ob_[:len(ser)]) != ser)):
+                st.fail("whitelist_signature_serialize into a %d-byte buffer (needs %d) returned %d / length %d" % (room, len(ser), r_, ln_.value), cd)
+                break
     # serialize into a buffer one byte short / longer
     okS, _, _ = lib_serialize(L, sig, room=len(ser) - 1)
     okL, serL, lnL = lib_serialize(L, sig, room=len(ser) + 9)
